@@ -90,6 +90,8 @@ def generate(seed, tier="quick"):
         # preferring the call sites inside prior.py.
         op = {"id": 0, "op": "rejection_by_count", "data": 0, "N": rnd.randint(4, 12), "source": "object", "in_memory": False,
               "kw": {"n_linear_samples": 1, "n_batches": rnd.choice([1, 2]), "return_logprobs": rnd.random() < 0.7}}
+    if rnd.random() < 0.15:
+        cfg["forked_child"] = True
     if op.get("source") == "file" and rnd.random() < 0.3:
         cfg["file_spelling"] = rnd.choice(["dot", "double-slash", "dotdot"])
     if op.get("source") == "file" and rnd.random() < 0.08:
@@ -274,6 +276,18 @@ class Trialer:
         return path
 
     def call(self, joker):
+        if self.program["config"].get("forked_child"):
+            # the caller is a process fork()ed after thejoker was imported (outer multiprocessing over sources):
+            # os.getpid() no longer returns what it returned at import time
+            real = os.getpid
+            os.getpid = lambda: real() + 1000003
+            try:
+                return self._call(joker)
+            finally:
+                os.getpid = real
+        return self._call(joker)
+
+    def _call(self, joker):
         op = self.op
         src = self.spelled(self.user_file) if op.get("source") == "file" else self.w.libraries[0].samples
         data = self.w.datasets[0]
